@@ -89,6 +89,13 @@ def run_episode(spec, uid="E"):
             listed = pj.materialise(proj, base)
         events.append({"k": "proj", "id": uid, "first": True, **listed})
         root_path = os.path.join(base, proj["root"])
+        if proj.get("root_via_link"):
+            # the root directory is reached through a symbolic link whose name differs from its target's name (a
+            # package checked out as 'store/r_target' and linked into the path as 'r'): modules are named after the
+            # directory name the caller GAVE.  Only used by episodes without file exclusions.
+            os.makedirs(os.path.join(base, "_store"))
+            os.rename(root_path, os.path.join(base, "_store", proj["root"] + "_target"))
+            os.symlink(os.path.join(base, "_store", proj["root"] + "_target"), root_path)
         for it in spec["items"]:
             op = it["op"]
             if op == "scan":
